@@ -74,6 +74,10 @@ class Unk:
         return "?"
 
 
+class CoreList:
+    """the core list `<tensor>.cores` of some argument tensor (handed to a helper as a plain list)"""
+
+
 UNK = Unk()
 
 
@@ -296,6 +300,8 @@ class Ranges:
             base = self.ev(e.value)
             if e.attr in ("T", "mT"):
                 return self._transpose(base)
+            if e.attr == "cores":
+                return CoreList()
             return UNK
         if isinstance(e, ast.BinOp):
             l, r = self.ev(e.left), self.ev(e.right)
@@ -312,6 +318,8 @@ class Ranges:
                     else:
                         raise _Fail()
                 return IGrid(shp, self.facts.norm(l.bound + r.bound - 1))
+            if isinstance(e.op, (ast.Mod, ast.FloorDiv)) and isinstance(l, Vec):
+                return self._divmod(l, self.int_of(e.right), isinstance(e.op, ast.Mod))
             if isinstance(e.op, ast.Add):
                 # x + 0 copy idiom
                 if isinstance(e.right, ast.Constant) and e.right.value == 0:
@@ -326,6 +334,17 @@ class Ranges:
         if isinstance(e, ast.Call):
             return self._call(e)
         return UNK
+
+    def _divmod(self, v: Vec, n, mod: bool):
+        """entries of v in [0, B): v % n lies in [0, n); v // n lies in [0, B/n) when n divides B (mixed-radix digits of a flat index)"""
+        if n is None or v.bound is None or v.ones:
+            raise _Fail()
+        if mod:
+            return Vec(v.length, n)
+        q = self.facts.norm(v.bound).div(self.facts.norm(n))
+        if q is None:
+            raise _Fail()
+        return Vec(v.length, q)
 
     def _transpose(self, v):
         if isinstance(v, Sh) and len(v.shape) == 2:
@@ -475,6 +494,13 @@ class Ranges:
             if n is not None:
                 return Vec(n, P.const(2), ones=True)
             return UNK
+        if last in ("remainder", "fmod", "floor_divide", "div") and len(args) == 2:
+            v = self.ev(args[0])
+            floor = last == "floor_divide" or (last == "div" and any(kw.arg == "rounding_mode" and isinstance(kw.value, ast.Constant)
+                                                                     and kw.value.value in ("floor", "trunc") for kw in e.keywords))
+            if isinstance(v, Vec) and (floor or last in ("remainder", "fmod")):
+                return self._divmod(v, self.int_of(args[1]), last in ("remainder", "fmod"))
+            raise _Fail()
         if last == "kron" and len(args) == 2:
             a, b = self.ev(args[0]), self.ev(args[1])
             if isinstance(a, Vec) and isinstance(b, Vec):
@@ -618,7 +644,8 @@ class Ranges:
             if isinstance(a, ast.Name) and a.id in role_of:
                 nm2[role_of[a.id]] = p_
             else:
-                env2[p_] = self.ev(a)
+                i = self.int_of(a)
+                env2[p_] = IntV(i) if i is not None else self.ev(a)
         from .rules import order_names
         self.env, self.nm, self.orders, self.f_cur = env2, nm2, order_names(callee.node) | {"d"}, callee
         self.depth += 1
@@ -758,8 +785,10 @@ class Ranges:
     def gathers(self, root):
         """function_interpolate: C.cores[i][.., eval_index[:, i], :] - the core of position i is gathered with column i"""
         for n in ast.walk(root):
-            if not (isinstance(n, ast.Subscript) and isinstance(n.value, ast.Subscript) and isinstance(n.value.value, ast.Attribute)
-                    and n.value.value.attr == "cores" and isinstance(n.slice, ast.Tuple)):
+            if not (isinstance(n, ast.Subscript) and isinstance(n.value, ast.Subscript) and isinstance(n.slice, ast.Tuple)):
+                continue
+            lst = n.value.value
+            if not ((isinstance(lst, ast.Attribute) and lst.attr == "cores") or (isinstance(lst, ast.Name) and isinstance(self.env.get(lst.id), CoreList))):
                 continue
             core_pos = n.value.slice
             for ax, x in enumerate(n.slice.elts):
